@@ -182,6 +182,31 @@ static void run_message(vh_ctx_t * v, msg_t * m, int via_flush, const char * how
     SCPI_ErrorClear(v->ctx);
 }
 
+/* ---- a second context ("module") whose parser runs inside the callbacks of the first ("mainframe" forwarding a query) --------- */
+static vh_ctx_t * vB; static vh_sig_t sigsB[NQ + NC]; static int nested_stage; static unsigned nested_runs, nested_bad; static char nested_got[80];
+static void nested_hook(scpi_t * context, int stage) {
+    static const char fwd[] = "Q1?;C1;Q2?\n"; static const char want[] = "15;\"m\"\r\n";
+    if (!vB || context == vB->ctx || stage != nested_stage) return;
+    vh_ctx_clear_capture(vB);
+    vh_input(vB, fwd, sizeof fwd - 1);
+    nested_runs++;
+    if (vB->out.len != sizeof want - 1 || memcmp(vB->out.p, want, sizeof want - 1) != 0 || vB->nflush != 1) { if (!nested_bad++) snprintf(nested_got, sizeof nested_got, "%s", vh_esc(vB->out.p ? vB->out.p : "", vB->out.len)); }
+}
+static void nested_begin(uint64_t idx) {
+    memset(sigsB, 0, sizeof sigsB);
+    sigsB[0].nouts = 1; sigsB[0].outs[0].kind = VO_INT32; sigsB[0].outs[0].u = 15;
+    sigsB[1].nouts = 1; sigsB[1].outs[0].kind = VO_TEXT; sigsB[1].outs[0].data = "m"; sigsB[1].outs[0].len = 1;
+    vB = vh_ctx_new(cmds, 64, 4, 64); vB->log_enabled = 0; vB->sigs = sigsB; vB->nsigs = NQ + NC;
+    nested_stage = (int) ((idx >> 2) & 1); nested_runs = nested_bad = 0;
+    vh_nested_hook = nested_hook;
+}
+static void nested_end(const msg_t * m) {
+    vh_nested_hook = NULL;
+    if (nested_bad) vh_violation("C06:other-context-response-differs", "message \"%s\" on context A; every handler of A forwards \"Q1?;C1;Q2?\" to context B (%s): B wrote \"%s\" (%u of %u forwards differ)", vh_esc(m->text.p, m->text.len), nested_stage ? "before its first result" : "on entry", nested_got, nested_bad, nested_runs);
+    if (nested_runs) vh_count(nested_stage ? "nested.other_context_parsed_before_first_result" : "nested.other_context_parsed_on_handler_entry", nested_runs);
+    vh_ctx_free(vB); vB = NULL;
+}
+
 static uint64_t p0_count(int thorough) {
 #if VH_ASAN
     return vh_scaled(thorough ? 600000 : 60000);
@@ -198,6 +223,14 @@ static void p0_run(uint64_t idx, vh_rng_t * rng) {
     v = vh_ctx_new(cmds, 700, 8, 64); v->log_enabled = 0;
     run_message(v, &m, (idx % 5 == 0) ? 1 : 0, "fresh context");
     vh_ctx_free(v);
+    /* 1b. the same while every callback runs the parser of another context (nothing in the library is shared between contexts) */
+    if (idx % 4 == 2) {
+        nested_begin(idx);
+        v = vh_ctx_new(cmds, 700, 8, 64); v->log_enabled = 0;
+        run_message(v, &m, 0, "fresh context, callbacks forward a query to a second context");
+        vh_ctx_free(v);
+        nested_end(&m);
+    }
     /* 2. after a random previous message on the same context (its own framing is checked too) */
     {
         vh_rng_t r2 = *rng; msg_t keep = m; vh_sig_t keep_sigs[NQ + NC];
@@ -236,7 +269,7 @@ static void p0_run(uint64_t idx, vh_rng_t * rng) {
 
 int main(int argc, char ** argv) {
     static const vh_phase_t phases[] = { { "messages", p0_count, p0_run } };
-    vh_require("items.long_ascii_array"); vh_require("msg.with_response"); vh_require("msg.nothing_responds"); vh_require("msg.two_or_more_responders");
+    vh_require("items.long_ascii_array"); vh_require("nested.other_context_parsed_before_first_result"); vh_require("nested.other_context_parsed_on_handler_entry"); vh_require("msg.with_response"); vh_require("msg.nothing_responds"); vh_require("msg.two_or_more_responders");
     vh_require("shape.responder_then_silent_unit"); vh_require("shape.silent_unit_then_responder"); vh_require("shape.fails_after_partial_output");
     vh_require("shape.query_emitting_nothing"); vh_require("shape.query_failing_before_output"); vh_require("shape.single_partial_failure");
     return vh_main(argc, argv, "C06", phases, 1);
